@@ -27,14 +27,14 @@ Proof.
   - destruct h as [| |ls|].
     + discriminate.
     + discriminate.
-    + unfold function_or_property. destruct (mem_str "property" ls); discriminate.
+    + unfold function_or_property. destruct (mem_str "property" (with_async f ls)); discriminate.
     + unfold inspector_attribute. discriminate.
   - exfalso. exact (handlers_total _ E).
 Qed.
 
 (* finite reflection: the whole table in one computation (24 forms, listed in all_defforms) *)
 Definition form_agrees (d : defform) : bool :=
-  is_import d || gap_async_in_class d ||
+  is_import d ||
   skel_eqb (skeleton (visitor_member d)) (skeleton (inspect_member (runtime_features d))).
 
 Lemma form_agrees_all : forallb form_agrees all_defforms = true.
@@ -74,13 +74,13 @@ Proof.
     destruct k, k0; try discriminate; congruence.
 Qed.
 
-Theorem kind_agrees_modulo_known d :
-  is_import d = false -> gap_async_in_class d = false ->
+Theorem kind_agrees d :
+  is_import d = false ->
   skeleton (visitor_member d) = skeleton (inspect_member (runtime_features d)).
 Proof.
-  intros Hi Hg.
+  intros Hi.
   pose proof (proj1 (forallb_forall form_agrees all_defforms) form_agrees_all d (all_defforms_complete d)) as H.
-  unfold form_agrees in H. rewrite Hi, Hg in H. simpl in H. apply skel_eqb_eq. exact H.
+  unfold form_agrees in H. rewrite Hi in H. simpl in H. apply skel_eqb_eq. exact H.
 Qed.
 
 (* the Griffe kind (module / class / function / attribute) agrees with no exception *)
@@ -90,18 +90,6 @@ Theorem gkind_agrees d :
 Proof.
   destruct d as [[|] [|]|[|]|[|]| | |[|]|[|]|sc t]; intros H; try discriminate; vm_compute; reflexivity.
 Qed.
-
-(* the gap predicate is exact: inside it the shared labels do differ (the "async" label is lost) *)
-Theorem kind_gap_exact d :
-  is_import d = false -> gap_async_in_class d = true ->
-  skeleton (visitor_member d) <> skeleton (inspect_member (runtime_features d)).
-Proof.
-  destruct d as [[|] [|]|[|]|[|]| | |[|]|[|]|sc t]; intros H G; try discriminate; vm_compute; discriminate.
-Qed.
-
-Theorem kind_agrees_refuted :
-  exists d, is_import d = false /\ skeleton (visitor_member d) <> skeleton (inspect_member (runtime_features d)).
-Proof. exists (DFunc SCls true). split; [reflexivity|]. vm_compute. discriminate. Qed.
 
 (* ---- objects defined where they are found are never aliased *)
 Lemma lstrip_map_refl p : path_eqb (map lstrip_us p) (map lstrip_us p) = true.
@@ -120,12 +108,12 @@ Proof.
 Qed.
 
 Theorem kind_agrees_in_place d e p cur name hf :
-  is_import d = false -> gap_async_in_class d = false ->
+  is_import d = false ->
   ae_child_mod e = Some p -> ae_parent_mod e = Some p ->
   skeleton (inspect_child (runtime_features d) e cur name hf) = skeleton (visitor_member d).
 Proof.
-  intros Hi Hg Hc Hp. unfold inspect_child. rewrite (defined_here_not_aliased _ e p Hc Hp).
-  symmetry. apply kind_agrees_modulo_known; assumption.
+  intros Hi Hc Hp. unfold inspect_child. rewrite (defined_here_not_aliased _ e p Hc Hp).
+  symmetry. apply kind_agrees; assumption.
 Qed.
 
 (* ================================================================================================ *)
@@ -366,10 +354,6 @@ Qed.
 Lemma kind_map_id k : kind_map k = k.
 Proof. destruct k; reflexivity. Qed.
 
-Definition param_agree (v i : gparam) : Prop :=
-  gp_name v = gp_name i /\ gp_ann v = gp_ann i /\ gp_kind v = gp_kind i /\
-  (is_variadic (gp_kind v) = false -> gp_default v = gp_default i /\ gp_required v = gp_required i).
-
 Lemma visitor_parameters_eq a : wf a = true ->
   visitor_parameters a = Ok (map of_param (cpython_signature a)).
 Proof. intros H. unfold visitor_parameters. rewrite (parameters_eq_cpython a H). reflexivity. Qed.
@@ -377,7 +361,11 @@ Proof. intros H. unfold visitor_parameters. rewrite (parameters_eq_cpython a H).
 (* every parameter CPython's signature lists is a non-variadic one with or without default, or a variadic one
    carrying Griffe's "()" / "{}" marker *)
 Definition sig_param_ok (p : param) : Prop :=
-  match pdef p with DStr _ => is_variadic (pkind p) = true | _ => is_variadic (pkind p) = false end.
+  match pkind p with
+  | VP => pdef p = DStr "()"
+  | VK => pdef p = DStr "{}"
+  | _ => match pdef p with DStr _ => False | _ => True end
+  end.
 
 Lemma Forall_app_intro {A} (P : A -> Prop) l1 l2 : Forall P l1 -> Forall P l2 -> Forall P (l1 ++ l2).
 Proof. intros. apply Forall_app. split; assumption. Qed.
@@ -387,11 +375,11 @@ Proof. revert l; induction n as [|n IH]; intros [|y l]; simpl; try tauto. intros
 Lemma in_skipn {A} (x : A) n l : In x (skipn n l) -> In x l.
 Proof. revert l; induction n as [|n IH]; intros [|y l]; simpl; try tauto. intros H; auto. Qed.
 
-Lemma tagged_not_variadic a x k :
-  In (x, k) (map (fun x => (x, PO)) (posonly a) ++ map (fun x => (x, PK)) (args a)) -> is_variadic k = false.
+Lemma tagged_positional a x k :
+  In (x, k) (map (fun x => (x, PO)) (posonly a) ++ map (fun x => (x, PK)) (args a)) -> k = PO \/ k = PK.
 Proof.
   intros Hk. apply in_app_or in Hk.
-  destruct Hk as [Hk|Hk]; apply in_map_iff in Hk; destruct Hk as [y [Ey _]]; inversion Ey; reflexivity.
+  destruct Hk as [Hk|Hk]; apply in_map_iff in Hk; destruct Hk as [y [Ey _]]; inversion Ey; auto.
 Qed.
 
 Lemma cpython_signature_ok a : Forall sig_param_ok (cpython_signature a).
@@ -399,45 +387,41 @@ Proof.
   unfold cpython_signature, cpython_positional, cpython_kwonly.
   repeat apply Forall_app_intro.
   - apply Forall_forall. intros p Hp. apply in_map_iff in Hp. destruct Hp as [[x k] [E Hin]]. subst p.
-    unfold sig_param_ok. simpl. apply in_firstn in Hin. exact (tagged_not_variadic a x k Hin).
+    unfold sig_param_ok. simpl. apply in_firstn in Hin. destruct (tagged_positional a x k Hin); subst k; exact I.
   - apply Forall_forall. intros p Hp. apply in_map_iff in Hp. destruct Hp as [[[x k] d] [E Hin]]. subst p.
-    unfold sig_param_ok. simpl. apply in_combine_l in Hin. apply in_skipn in Hin. exact (tagged_not_variadic a x k Hin).
+    unfold sig_param_ok. simpl. apply in_combine_l in Hin. apply in_skipn in Hin.
+    destruct (tagged_positional a x k Hin); subst k; exact I.
   - unfold opt_param. destruct (vararg a); constructor; [reflexivity|constructor].
   - apply Forall_forall. intros p Hp. apply in_map_iff in Hp. destruct Hp as [[x d] [E Hin]]. subst p.
-    unfold sig_param_ok. simpl. destruct d; reflexivity.
+    unfold sig_param_ok. simpl. destruct d; exact I.
   - unfold opt_param. destruct (kwarg a); constructor; [reflexivity|constructor].
 Qed.
 
-Lemma agree_of_ok p : sig_param_ok p -> param_agree (of_param p) (convert_parameter (to_iparam p)).
+Lemma convert_of_ok p : sig_param_ok p -> convert_parameter (to_iparam p) = of_param p.
 Proof.
-  destruct p as [n a k d]. unfold sig_param_ok, param_agree. simpl. rewrite kind_map_id.
-  intros H. split; [reflexivity|]. split; [reflexivity|]. split; [reflexivity|].
-  intros Hv. destruct d; simpl; auto. rewrite Hv in H. discriminate.
+  destruct p as [n a k d]. unfold sig_param_ok, convert_parameter, to_iparam, of_param. simpl.
+  rewrite kind_map_id.
+  destruct k; simpl; intros H; try (subst d; reflexivity); destruct d; try contradiction; reflexivity.
 Qed.
 
-Lemma Forall2_map_both {A B C} (R : B -> C -> Prop) (f : A -> B) (g : A -> C) (P : A -> Prop) l :
-  (forall x, P x -> R (f x) (g x)) -> Forall P l -> Forall2 R (map f l) (map g l).
-Proof. intros H F. induction F; simpl; constructor; auto. Qed.
-
-(* names, order, annotations, kinds agree for every parameter; defaults and required-ness for every non-variadic one *)
-Theorem params_agree_modulo_variadic a :
-  wf a = true ->
-  exists vs, visitor_parameters a = Ok vs /\ Forall2 param_agree vs (inspector_parameters false a).
+(* names, order, annotations, kinds, defaults and required-ness: the two agents build the same parameter list,
+   for every signature (functions, methods, static methods; class methods through __func__) *)
+Theorem params_agree a :
+  wf a = true -> visitor_parameters a = Ok (inspector_parameters a).
 Proof.
-  intros H. exists (map of_param (cpython_signature a)). split; [apply visitor_parameters_eq; exact H|].
+  intros H. rewrite (visitor_parameters_eq a H). f_equal.
   unfold inspector_parameters, inspect_signature. rewrite map_map.
-  apply (Forall2_map_both param_agree of_param (fun x => convert_parameter (to_iparam x)) sig_param_ok).
-  - exact agree_of_ok.
-  - apply cpython_signature_ok.
+  pose proof (cpython_signature_ok a) as F. induction F; simpl; auto.
+  rewrite IHF. f_equal. symmetry. apply convert_of_ok. assumption.
 Qed.
 
 Lemma required_of_ok p : sig_param_ok p -> gp_required (of_param p) = cpython_required (to_iparam p).
 Proof.
   destruct p as [n a k d]. unfold sig_param_ok, gp_required, cpython_required. simpl.
-  destruct d; simpl; intros H; try rewrite H; reflexivity.
+  destruct k; simpl; intros H; try (subst d; reflexivity); destruct d; try contradiction; reflexivity.
 Qed.
 
-(* the static agent's required-ness is CPython's binder's, for every signature *)
+(* both agents' required-ness is CPython's binder's, for every signature *)
 Theorem visitor_required_is_cpython a :
   wf a = true ->
   exists vs, visitor_parameters a = Ok vs /\ map gp_required vs = map cpython_required (inspect_signature a).
@@ -447,86 +431,28 @@ Proof.
   pose proof (cpython_signature_ok a) as F. induction F; simpl; auto. f_equal; auto. apply required_of_ok; assumption.
 Qed.
 
-(* known gap F1: the dynamic agent calls *args / **kwargs required *)
-Theorem inspector_required_refuted :
-  exists a, wf a = true /\
-    map gp_required (inspector_parameters false a) <> map cpython_required (inspect_signature a).
+Theorem inspector_required_is_cpython a :
+  map gp_required (inspector_parameters a) = map cpython_required (inspect_signature a).
 Proof.
-  exists (mkArgs [] [] (Some (mkArg "args" None)) [] [] None []). split; [reflexivity|]. vm_compute. discriminate.
-Qed.
-
-Theorem inspector_required_modulo_variadic a :
-  Forall (fun p => is_variadic (ip_kind p) = false -> gp_required (convert_parameter p) = cpython_required p)
-         (inspect_signature a).
-Proof.
-  apply Forall_forall. intros [n an k d] _ Hv. unfold gp_required, cpython_required. simpl in *.
-  rewrite Hv. destruct d; reflexivity.
-Qed.
-
-(* ---- classmethods: the dynamic agent inspects the bound method (known gap F2) *)
-Definition tagged (a : arguments) := map (fun x => (x, PO)) (posonly a) ++ map (fun x => (x, PK)) (args a).
-
-Lemma cpython_positional_head a x k t :
-  wf a = true -> tagged a = (x, k) :: t ->
-  exists d r, cpython_positional a = mkParam (aname x) (aann x) k d :: r.
-Proof.
-  intros Hwf Ht. destruct (wf_inv a Hwf) as [Hd _].
-  unfold cpython_positional. fold (tagged a). rewrite Ht.
-  assert (Hlen : List.length (defaults a) <= List.length ((x, k) :: t)).
-  { rewrite <- Ht. unfold tagged. rewrite app_length, !map_length. exact Hd. }
-  destruct (List.length ((x, k) :: t) - List.length (defaults a)) as [|n] eqn:En.
-  - simpl. destruct (defaults a) as [|d ds] eqn:Ed; simpl in *; [lia|]. eexists _, _. reflexivity.
-  - simpl. eexists _, _. reflexivity.
-Qed.
-
-Lemma tagged_kind_positional a x k t : tagged a = (x, k) :: t -> k = PO \/ k = PK.
-Proof.
-  unfold tagged. intros H.
-  destruct (posonly a) as [|y ys]; simpl in H.
-  - destruct (args a) as [|z zs]; simpl in H; [discriminate|]. inversion H. auto.
-  - inversion H. auto.
-Qed.
-
-Theorem classmethod_params_modulo_known a :
-  wf a = true -> posonly a ++ args a <> [] ->
-  exists v vs, visitor_parameters a = Ok (v :: vs) /\ Forall2 param_agree vs (inspector_parameters true a).
-Proof.
-  intros Hwf Hne.
-  destruct (tagged a) as [|[x k] t] eqn:Ht.
-  { exfalso. apply Hne. unfold tagged in Ht. apply app_eq_nil in Ht. destruct Ht as [H1 H2].
-    apply map_eq_nil in H1. apply map_eq_nil in H2. rewrite H1, H2. reflexivity. }
-  destruct (cpython_positional_head a x k t Hwf Ht) as [d [r Hpos]].
-  pose proof (cpython_signature_ok a) as F.
-  rewrite (visitor_parameters_eq a Hwf).
-  unfold inspector_parameters, inspect_signature.
-  unfold cpython_signature in *. rewrite Hpos in *. simpl in *.
-  inversion F as [|? ? _ F']; subst.
-  eexists _, _. split; [reflexivity|].
-  destruct (tagged_kind_positional a x k t Ht) as [Hk|Hk]; subst k; simpl; rewrite map_map;
-    apply (Forall2_map_both param_agree of_param (fun x => convert_parameter (to_iparam x)) sig_param_ok);
-    auto using agree_of_ok.
-Qed.
-
-Theorem classmethod_params_refuted :
-  exists a vs, wf a = true /\ visitor_parameters a = Ok vs /\
-    map gp_name vs <> map gp_name (inspector_parameters true a).
-Proof.
-  exists (mkArgs [] [mkArg "cls" None; mkArg "a" None] None [] [] None []). eexists. split; [reflexivity|].
-  split; [vm_compute; reflexivity|]. vm_compute. discriminate.
+  unfold inspector_parameters, inspect_signature. rewrite !map_map.
+  pose proof (cpython_signature_ok a) as F. induction F; simpl; auto. f_equal; auto.
+  rewrite (convert_of_ok _ H). apply required_of_ok. assumption.
 Qed.
 
 (* ================================================================================================ *)
 (* D. docstrings                                                                                     *)
 
-(* known gap F5: Inspector._get_docstring cleans the text and Docstring.__init__ cleans it again; cleandoc is not
-   idempotent when the first line is blank (the second pass strips the new first line's own indentation) *)
-Theorem docstring_refuted :
-  exists v, first_line_blank v = true /\ static_doc v <> dynamic_doc v.
+(* Inspector._get_docstring hands the raw __doc__ to Docstring, exactly like the visitor *)
+Theorem docstring_agree v : static_doc v = dynamic_doc v.
+Proof. reflexivity. Qed.
+
+(* why a second cleaning (the repaired defect F5) was not harmless: inspect.cleandoc is not idempotent *)
+Lemma cleaned_twice_differs : exists v, first_line_blank v = true /\ docstring_value v <> cleaned_twice v.
 Proof.
   exists [mkLine 0 None; mkLine 2 (Some 1%Z); mkLine 0 (Some 2%Z)]. split; [reflexivity|]. vm_compute. discriminate.
 Qed.
 
-(* ---- agreement outside the gap: with a non-blank first line the second cleandoc pass is the identity *)
+(* ---- with a non-blank first line a second cleandoc pass is the identity *)
 Lemma drop_while_app_last {A} (f : A -> bool) l x : f x = false -> drop_while f (l ++ [x]) = drop_while f l ++ [x].
 Proof.
   intros H. induction l as [|y l IH]; simpl.
@@ -665,9 +591,9 @@ Proof.
   rewrite (drop_trailing_cons_keep empty_line _ _ He). simpl. rewrite He. reflexivity.
 Qed.
 
-Theorem doc_agree_first_line_nonblank v : first_line_blank v = false -> static_doc v = dynamic_doc v.
+Lemma cleaned_twice_same v : first_line_blank v = false -> docstring_value v = cleaned_twice v.
 Proof.
-  unfold static_doc, dynamic_doc, docstring_value.
+  unfold cleaned_twice, docstring_value.
   destruct v as [|l0 r]; [reflexivity|].
   destruct (blank l0) eqn:Hb.
   - (* blank first line: the hypothesis leaves only the one-line text *)
@@ -692,20 +618,13 @@ Qed.
 (* ================================================================================================ *)
 (* E. _pick_member                                                                                   *)
 
-(* known gap F7: in a submodule a member whose value is None is dropped although it is no ancestor *)
-Theorem pick_member_refuted :
-  exists e, pick_member_intended e = true /\ pick_member e = false.
-Proof. exists (mkPick "NOTHING" false false false true 1 true). split; vm_compute; reflexivity. Qed.
+(* the filter drops special names, type/object, inherited names and cyclic references to a real ancestor, nothing else *)
+Theorem pick_member_spec e :
+  pick_member e = negb (mem_str (pk_name e) exclude_specials) && negb (pk_is_type e) && negb (pk_is_object e)
+                  && negb (pk_is_ancestor e) && pk_in_vars e.
+Proof. reflexivity. Qed.
 
-Theorem pick_member_modulo_known e :
-  gap_none_in_submodule e = false -> pick_member e = pick_member_intended e.
-Proof.
-  unfold gap_none_in_submodule, pick_member, pick_member_intended, in_ids. intros H. rewrite H, orb_false_r. reflexivity.
-Qed.
-
-(* and inside the gap nothing is ever picked *)
-Theorem pick_member_gap_exact e : gap_none_in_submodule e = true -> pick_member e = false.
-Proof.
-  unfold gap_none_in_submodule, pick_member, in_ids. intros H. rewrite H, orb_true_r. simpl.
-  rewrite andb_false_r. reflexivity.
-Qed.
+(* a None-valued member of an inspected submodule is kept at every placeholder depth *)
+Theorem pick_member_none_in_submodule n k :
+  pick_member (mkPick n false false false true k true) = negb (mem_str n exclude_specials).
+Proof. unfold pick_member, in_ids. simpl. rewrite !andb_true_r. reflexivity. Qed.
